@@ -1,0 +1,20 @@
+//go:build verif
+
+package ruleguard
+
+import (
+	"github.com/quasilyte/go-ruleguard/ruleguard/ir"
+)
+
+// VerifConvertAST exposes the source-to-IR conversion that Load performs before LoadFile,
+// with the engine's own importer, so that the harness can feed the result to LoadFromIR.
+func VerifConvertAST(e *Engine, ctx *LoadContext, filename string, src []byte) (*ir.File, error) {
+	imp := newGoImporter(e.impl.state, goImporterConfig{
+		fset:         ctx.Fset,
+		debugImports: ctx.DebugImports,
+		debugPrint:   ctx.DebugPrint,
+		buildContext: e.BuildContext,
+	})
+	f, _, err := convertAST(ctx, imp, filename, src)
+	return f, err
+}
